@@ -903,6 +903,9 @@ func raceLeg(prop, tier string, seed int64, secs int, info map[string]any, fixed
 	}
 	if err != nil {
 		s := string(out)
+		if strings.Contains(s, "WARNING: DATA RACE") && !strings.Contains(s, "github.com/mattn/anko/") {
+			die2("the race detector reported a race that does not involve mattn/anko (a race inside the harness): not a verdict\n%s", s)
+		}
 		if strings.Contains(s, "WARNING: DATA RACE") {
 			if len(s) > 5000 {
 				s = s[:5000]
